@@ -240,7 +240,7 @@ func runUnit(file, unit, filterS, pkg string, attrs map[string]string, smtdir st
 				fr.Obligations = append(fr.Obligations, or)
 			}
 			for _, n := range g.notes {
-				if strings.HasPrefix(n, "spec error") {
+				if strings.HasPrefix(n, "spec error") || strings.HasPrefix(n, "solver error") {
 					fr.SpecErrors = append(fr.SpecErrors, n)
 				} else {
 					fr.Notes = append(fr.Notes, n)
